@@ -375,7 +375,7 @@ theorem streamLoop_enc (db : Db) (k : Bytes) (remaining : Nat) (hrem : remaining
         unfold two32; omega
       have hparse : parseU64 (natDigits e.fields.length) = some e.fields.length :=
         parseU64_natDigits _ (by omega)
-      have c3 : ¬ (idx + 2 + e.fields.length * 2 % two64) % two64 > remaining := by unfold two64; omega
+      have c3 : ¬ idx + 2 + e.fields.length * 2 > remaining := by omega
       have c4 : (idx + 2 + 2 * e.fields.length) % two64 = idx + 2 + 2 * e.fields.length := by
         unfold two64; omega
       have hup : upsertAll [] e.fields = e.fields := upsertAll_nodup [] e.fields (by simpa [mkeys] using hnd)
